@@ -1208,6 +1208,8 @@ CORPUS = [
     [('seq', [('i', 1)]), ('seq', [('i', 2)]), ('mctor', [(('i', 1), 0)]), ('mctor', [(('d', '1.0'), 1)]), ('seq', [2, 3]),
      ('mmerge', 4, 'first'), ('mmerge', 4, 'last'), ('mmerge', 4, 'combine'), ('mmerge', 4, 'reject'), ('mmerge', 4, 'first'),
      ('mmerge', 4, 'default')],
+    # F15w: a non-map operand of map:merge
+    [('seq', [('i', 7)]), ('mmerge', 0, 'combine'), ('mctor', [(('i', 1), 0)]), ('seq', [2, 2, 0]), ('mmerge', 3, 'reject')],
     # xs:untypedAtomic keys: string class; the constructor stores them as xs:string, map:entry/put keep them
     [('seq', [('i', 1)]), ('mctor', [(('a', '1'), 0), (('i', 1), 0)]), ('mkeys', 1), ('mentry', ('a', 'a'), 0), ('mkeys', 3),
      ('mget', 3, ('s', 'a')), ('mcontains', 3, ('u', 'a')), ('mput', 3, ('u', 'a'), 0), ('mkeys', 7), ('mget', 1, ('a', '1')),
